@@ -49,9 +49,16 @@ def regexpp(regex: Any) -> str:
         "\t": r"\t",
         "\v": r"\v",
         "\f": r"\f",
-        "\b": r"\b",
+        "\b": r"\x08",  # NOTE: r"\b" is a word boundary in a regex
         "\a": r"\a",
         "\0": r"\0",
+        # NOTE: the other characters str.splitlines() breaks at: a code printer would cut the literal there
+        "\x1c": r"\x1c",
+        "\x1d": r"\x1d",
+        "\x1e": r"\x1e",
+        "\x85": r"\x85",
+        "\u2028": r"\u2028",
+        "\u2029": r"\u2029",
     }
 
     result = "".join(ctrl_map.get(c, c) for c in pattern_text)
